@@ -7,6 +7,8 @@ From Coq Require Import List Bool Arith Lia.
 Import ListNotations.
 From PP Require Import Model.C39 Proofs.C39.
 
+Definition ex_g0 : grid := [mkT true false false; mkT true false false; mkT false true false].
+
 (* Both constructors: any grid, scalar or vectorial class, any dimension, faces given as an
    index array or a boolean mask (repeated faces allowed), condition given as one string or
    a list — whenever the constructor does not raise, the object satisfies the partition
@@ -50,6 +52,30 @@ Theorem C39_assignment_exact :
               (forall c f, ~ In f (named (Some fs)) -> flags (F c) f = flags c f).
 Proof. exact assignment_exact. Qed.
 Print Assumptions C39_assignment_exact.
+
+(* List conditions with repeated faces (constructor or set_bc): a successful call gives every
+   named face the type of the LAST condition listed for it, in every component, and changes
+   no flag of any other face; every listed keyword was one of dir / neu / rob. *)
+Theorem C39_assignment_list_last_wins :
+  forall g w cs fs cl cs' x,
+    Forall (lens g) cs ->
+    set_faces assign w g cs (Some fs) (Some (CList cl)) = (cs', Done x) ->
+    exists ts, Forall2 (fun c t => parse c = Some t) cl ts /\
+    exists F, cs' = map F cs /\
+              forall c f, In c cs ->
+                flags (F c) f = match last_ty (named (Some fs)) ts f with
+                                | Some t => triple t
+                                | None => flags c f
+                                end.
+Proof. exact assignment_list_exact. Qed.
+Print Assumptions C39_assignment_list_last_wins.
+
+Example C39_nonvacuous_list :
+  set_faces assign false ex_g0 [init_comp ex_g0]
+            (Some (FIdx [2; 0; 2; 1])) (Some (CList [CDir; CRob; CNeu; CDir]))
+  = ([mkC [false; true; false] [false; false; true] [true; false; false]], Done false) /\
+  last_ty [2; 0; 2; 1] [Dir; Rob; Neu; Dir] 2 = Some Neu.
+Proof. split; vm_compute; reflexivity. Qed.
 
 (* The pre-fix assignment (vectorial 'dir' keeps is_rob, 'neu' is a no-op) violates the
    partition: BoundaryConditionVectorial(g, all faces, 'rob'); set_bc([0,1], 'dir'). *)
